@@ -597,6 +597,7 @@ static const char *cx_match(cx_model *m, const char *exp, size_t en, const char 
 #define CX_OPAQUE ((uintptr_t) 1)       /* state produced by libast's own null handler: not asserted */
 typedef struct { int ctx; char kind; uint32_t off, len; uintptr_t sin, sout;
                  const char *opt; size_t optlen;     /* expected events only: optional delivery of (a prefix of) this over-long line */
+                 int anytext;                        /* expected events only: the line must be delivered, its text is not judged */
 } cx_ev;
 static cx_ev cx_evs[CX_MAXEV]; static int cx_nev;
 static cx_ev cx_exp[CX_MAXEV]; static int cx_nexp;
@@ -641,7 +642,7 @@ static void cx_expect(int ctx, char kind, const char *text, size_t l)
 {
     if (cx_nexp >= CX_MAXEV) { cx_ev_overflow = 1; return; }
     cx_ev *e = &cx_exp[cx_nexp++];
-    e->ctx = ctx; e->kind = kind; e->sin = e->sout = 0; e->opt = NULL; e->optlen = 0;
+    e->ctx = ctx; e->kind = kind; e->sin = e->sout = 0; e->opt = NULL; e->optlen = 0; e->anytext = 0;
     if (cx_netext + l + 1 > CX_TEXTCAP) { cx_ev_overflow = 1; l = 0; }
     e->off = (uint32_t) cx_netext; e->len = (uint32_t) l;
     if (l) memcpy(cx_etext + cx_netext, text, l);
@@ -733,7 +734,7 @@ static void cx_model_file(cx_lmodel *lm, const cx_file *f, int fdepth)
 {
     const char *p = f->data.b, *end = f->data.b + f->data.n;
     if (fdepth > lm->max_fdepth) lm->max_fdepth = fdepth;
-    if (fdepth > 250) { cx_lm_weak(lm, "include depth beyond the 8-bit file index"); return; }
+    if (fdepth > 255) { cx_lm_weak(lm, "include depth beyond the 8-bit file index"); return; }
     if (f->data.n == 0 && fdepth > 0) { vh_count("empty_included_files", 1); return; }     /* a zero-length included file has no lines: nothing is delivered, and it must be closed again */
     if (lm->n_open < 300) lm->open_files[lm->n_open] = f;
     lm->n_open++;
@@ -794,12 +795,15 @@ static void cx_model_file(cx_lmodel *lm, const cx_file *f, int fdepth)
                 int already_open = 0;
                 for (int q = 0; inc && q < lm->n_open && q < 300; q++) if (lm->open_files[q] == inc) already_open = 1;
                 if (already_open) { lm->cyclic_includes++; vh_count("cyclic_include_lines", 1); }      /* refused: nothing is delivered for this line */
+                else if (inc && fdepth >= 255) { vh_count("includes_refused_at_the_file_index_limit", 1); }   /* the 8-bit file index is used up (this file sits in slot 255): refused, nothing delivered */
                 else if (inc) cx_model_file(lm, inc, fdepth + 1); else cx_lm_weak(lm, "include of a file that was not generated");
             } else if (!strncasecmp(w, "preproc ", 8)) {
                 cx_lm_weak(lm, "preproc");
             } else {
                 /* expanded for its side effects only */
-                if (lm->xm) { cx_buf o = { 0 }; cx_model_begin_expansion(lm->xm); cx_ref_expand(lm->xm, line, &o, 0); if (lm->xm->weak) cx_lm_weak(lm, lm->xm->weak_why); cx_buf_free(&o); }
+                if (lm->xm) { cx_buf o = { 0 }; cx_model_begin_expansion(lm->xm); cx_ref_expand(lm->xm, line, &o, 0);
+                              if (lm->xm->weak && !(lm->xm->refused && !strcasestr(line, "put"))) cx_lm_weak(lm, lm->xm->weak_why);      /* a refused expansion without %put has no side effect */
+                              cx_buf_free(&o); }
                 else cx_lm_weak(lm, "directive line without an expansion model");
             }
         } else if (*line == 'b' && !strncasecmp(line, "begin ", 6)) {
@@ -822,8 +826,16 @@ static void cx_model_file(cx_lmodel *lm, const cx_file *f, int fdepth)
             if (cx_has_meta(line)) {
                 if (lm->xm) {
                     cx_buf o = { 0 }; cx_model_begin_expansion(lm->xm); cx_ref_expand(lm->xm, line, &o, 0);
-                    if (lm->xm->weak || lm->xm->nwild) cx_lm_weak(lm, lm->xm->weak ? lm->xm->weak_why : "wild built-in in a delivered line");
-                    cx_expect(lm->stack[lm->depth], 'T', o.b, o.n);
+                    if (lm->xm->refused && !strcasestr(line, "put")) {
+                        /* a call whose parentheses do not balance cannot be expanded: the line is still a line of the file and is delivered once --
+                         * with which text (raw, partly expanded) the statement does not say */
+                        cx_expect(lm->stack[lm->depth], 'T', line, l);
+                        if (cx_nexp > 0) cx_exp[cx_nexp - 1].anytext = 1;
+                        vh_count("lines_whose_expansion_is_refused", 1);
+                    } else {
+                        if (lm->xm->weak || lm->xm->nwild) cx_lm_weak(lm, lm->xm->weak ? lm->xm->weak_why : "wild built-in in a delivered line");
+                        cx_expect(lm->stack[lm->depth], 'T', o.b, o.n);
+                    }
                     cx_buf_free(&o);
                 } else { cx_lm_weak(lm, "metacharacters without an expansion model"); cx_expect(lm->stack[lm->depth], 'T', line, l); }
             } else cx_expect(lm->stack[lm->depth], 'T', line, l);
@@ -873,7 +885,7 @@ static const char *cx_compare_events(const cx_ctxs *ctxs, cx_slots *sl, const ch
                 return msg;
             }
             a = &cx_evs[ai++];
-            if (a->kind != x->kind || a->ctx != hid || a->len != x->len || memcmp(cx_text + a->off, cx_etext + x->off, x->len)) {
+            if (a->kind != x->kind || a->ctx != hid || (!x->anytext && (a->len != x->len || memcmp(cx_text + a->off, cx_etext + x->off, x->len)))) {
                 *key = a->kind != x->kind ? "events:kind" : a->ctx != hid ? "events:context" : "events:text";
                 snprintf(msg, sizeof msg, "event #%d: expected (%c handler=%d ctx=%s text=%s) got (%c handler=%d text=%s)", xi, x->kind, hid, ctxs->names[x->ctx],
                          vh_q(cx_etext + x->off, x->len), a->kind, a->ctx, vh_q(cx_text + a->off, a->len));
@@ -993,8 +1005,8 @@ static void cx_gen_text(cx_file *f)
             case 1: cx_buf_adds(&b, "${FOO}"); break;
             case 2: cx_buf_adds(&b, "$(NOPE)"); break;
             case 3: cx_buf_adds(&b, vh_coin(50) ? "\\t" : "\\\\"); break;
-            case 4: cx_buf_adds(&b, "%get(k1)"); break;
-            case 5: cx_buf_adds(&b, "'$A'"); break;
+            case 4: if (vh_coin(12)) { cx_buf_adds(&b, vh_coin(50) ? "%version( oops" : "%get(%appname()"); i = n; } else cx_buf_adds(&b, "%get(k1)"); break;
+            case 5: cx_buf_adds(&b, vh_coin(50) ? "'$A'" : "'\"' ~/y"); break;          /* a double quote inside single quotes is plain text: what follows is still unquoted */
             default: cx_buf_adds(&b, "~/x"); break;
             }
             cx_buf_addc(&b, ' ');
